@@ -515,6 +515,9 @@ type Call10 struct {
 	From   int      `json:"from"`   // transferFromShares: the owner named in the arguments (-1 otherwise)
 	Shares *big.Int `json:"shares"` // transferFromShares: amount
 	Val    int      `json:"val"`
+	// transferFromShares: the allowance (Val, From, caller) is first overwritten with this value in the case's own
+	// branch of the state (magnitudes at the top of the uint256 range; nil = the world's allowance)
+	AllowSet *big.Int `json:"allowance_preset,omitempty"`
 }
 
 func (w *World10) calls(caller int) []Call10 {
@@ -587,6 +590,20 @@ func (w *World10) calls(caller int) []Call10 {
 		add(S, "transferFromShares", fmt.Sprintf("(CTransferFromShares %d %d %d %s)", c.val, c.from, c.to, zb(c.sh)), true, nil, c.from, c.sh, c.val,
 			w.vals[c.val].String(), A(c.from), A(c.to), c.sh)
 	}
+	// allowance magnitudes: the same transfers under an allowance at the top of the uint256 range (the largest value,
+	// its neighbour, the sign bit of a two's-complement reading) and at one unit
+	maxU := new(big.Int).Sub(new(big.Int).Lsh(big.NewInt(1), 256), big.NewInt(1))
+	for _, preset := range []*big.Int{maxU, new(big.Int).Sub(maxU, big.NewInt(1)), new(big.Int).Lsh(big.NewInt(1), 255), big.NewInt(1)} {
+		for _, c := range []struct {
+			to int
+			sh *big.Int
+		}{{aU2, e18(1)}, {caller, e18(100)}, {aU2, big.NewInt(1)}, {aU2, big.NewInt(2)}} {
+			add(S, "transferFromShares", fmt.Sprintf("(CTransferFromShares 0 %d %d %s)", aU1, c.to, zb(c.sh)), true, nil, aU1, c.sh, 0,
+				v0, A(aU1), A(c.to), c.sh)
+			out[len(out)-1].AllowSet = preset
+		}
+	}
+	add(S, "approveShares", fmt.Sprintf("(CApproveShares 0 %d %s)", aU2, zb(maxU)), true, nil, -1, nil, 0, v0, A(aU2), maxU)
 	add(S, "withdraw", "(CWithdraw 0)", true, nil, -1, nil, 0, v0)
 	add(S, "withdraw", "(CWithdraw 1)", true, nil, -1, nil, 0, v1)
 	add(S, "delegateV2", fmt.Sprintf("(CDelegateV2 0 %s)", zb(e18(2))), true, nil, -1, nil, 0, v0, e18(2))
@@ -842,6 +859,9 @@ func (w *World10) one(rep *lib.Report, r *lib.Rand, sh shape, caller int, kind s
 	if ck == lib.STATICCALL || ck == lib.DELEGATECALL {
 		value = big.NewInt(0) // these opcodes carry no value; the forwarder itself is not payable for them here
 	}
+	if call.AllowSet != nil && call.From >= 0 {
+		c.App.StakingKeeper.SetAllowance(ctx, w.vals[call.Val], w.addrs[call.From].Bytes(), w.addrs[caller].Bytes(), call.AllowSet)
+	}
 	pre := w.observe(ctx)
 	dumpPre := c.DumpAll(ctx)
 	data := call.Data
@@ -852,6 +872,9 @@ func (w *World10) one(rep *lib.Report, r *lib.Rand, sh shape, caller int, kind s
 	post := w.observe(ctx)
 	ok := res.Err == nil && !res.Failed
 	key := fmt.Sprintf("%s|%s|%s", shapeNames[sh], sw.name, call.Coq+call.Value.String())
+	if call.AllowSet != nil {
+		key += "|allowance=" + call.AllowSet.String()
+	}
 	rp := case10{Shape: shapeNames[sh], Switch: sw.name + " " + strings.Join(entries, ","), Call: call}
 	fail := func(what, sig, detail string) {
 		rp.Detail = detail
